@@ -113,7 +113,7 @@ class G:
         self.parent = parent
         self.nodes: list = []
         self.inits: list = []
-        self.vals: dict[str, list[str]] = {"F": [], "B": [], "S": [], "I": [], "FS": []}
+        self.vals: dict[str, list[str]] = {"F": [], "B": [], "S": [], "I": [], "FS": [], "L": [], "LNZ": [], "D": [], "U": []}
 
     def pool(self, ty: str) -> list[str]:
         out = list(self.vals[ty])
@@ -204,8 +204,92 @@ class ModelGen:
         return g.add("S", b)
 
     # ---- statements
+    # ---- other element types: ops whose ATTRIBUTES matter, constants of every dtype class
+    def typed_step(self, g: G):
+        r = self.rng
+        kinds = ["fmod_float", "double", "dtype_const", "uint8", "xor"]
+        if g.pool("L"):
+            kinds += ["intmod", "intmod", "intarith"]
+        kind = r.choice(kinds)
+        self.flags.add("typed_" + kind)
+        o = self.namer.new()
+        if kind == "intmod":
+            a = self.pick(g, "L")
+            if g.pool("LNZ") and r.random() < 0.6:
+                b = self.pick(g, "LNZ")
+            else:
+                b = self.const(g, H.make_tensor("value", TP.INT64, [3], [r.choice([-3, -2, 2, 3, 5]) for _ in range(3)]))
+            self.node(g, "Mod", [a, b], [o], fmod=r.choice([0, 1, 1]))
+            g.add("L", o)
+            f = self.namer.new()
+            self.node(g, "Cast", [o], [f], to=TP.FLOAT)
+            g.add("F", f)
+        elif kind == "intarith":
+            self.node(g, r.choice(["Add", "Sub", "Mul"]), [self.pick(g, "L"), self.pick(g, "L")], [o])
+            g.add("L", o)
+            f = self.namer.new()
+            self.node(g, "Cast", [o], [f], to=TP.FLOAT)
+            g.add("F", f)
+        elif kind == "fmod_float":
+            b = self.const(g, H.make_tensor("value", TP.FLOAT, [], [r.choice([2.0, -3.0, 0.5, 1.5])]))
+            self.node(g, "Mod", [self.pick(g, "F"), b], [o], fmod=1)
+            g.add("F", o)
+        elif kind == "double":
+            d = self.namer.new()
+            self.node(g, "Cast", [self.pick(g, "F")], [d], to=TP.DOUBLE)
+            dims = r.choice([[], [], [1], [3], [5]])
+            n = 1
+            for q in dims:
+                n *= q
+            vals = [r.choice([16777217.0, 0.1, 1.0 / 3.0, 1e-30, 123456789.123456789, 2.0, -4294967297.0]) for _ in range(n)]
+            c = self.const(g, H.make_tensor("value", TP.DOUBLE, dims, vals))
+            if dims == [5]:
+                c2 = self.namer.new()
+                self.node(g, "ReduceMax", [c], [c2], keepdims=0)
+                c = c2
+            self.node(g, r.choice(["Add", "Mul", "Sub"]), [d, c], [o])
+            g.add("D", o)
+            if r.random() < 0.5:
+                f = self.namer.new()
+                self.node(g, "Cast", [o], [f], to=TP.FLOAT)
+                g.add("F", f)
+        elif kind == "dtype_const":
+            dt, vals = r.choice([
+                (TP.FLOAT16, [0.1]), (TP.INT32, [7]), (TP.UINT8, [200]), (TP.INT8, [-5]), (TP.DOUBLE, [0.1]),
+                (TP.BOOL, [True]), (TP.INT16, [-300]), (TP.UINT64, [2**40]), (TP.BFLOAT16, [1.5]),
+            ])  # fmt: skip
+            dims = r.choice([[], [1]])
+            c = self.const(g, H.make_tensor("value", dt, dims, vals))
+            f = self.namer.new()
+            self.node(g, "Cast", [c], [f], to=TP.FLOAT)
+            self.node(g, "Add", [self.pick(g, "F"), f], [o])
+            g.add("F", o)
+        elif kind == "uint8":
+            a = self.namer.new()
+            ab = self.namer.new()
+            self.node(g, "Abs", [self.pick(g, "F")], [ab])
+            self.node(g, "Cast", [ab], [a], to=TP.UINT8)
+            g.add("U", a)
+            sh = self.const(g, H.make_tensor("value", TP.UINT8, [3], [1, 2, 0]))
+            u = self.namer.new()
+            self.node(g, "BitShift", [self.pick(g, "U"), sh], [u], direction=r.choice(["LEFT", "RIGHT"]))
+            g.add("U", u)
+            u2 = self.namer.new()
+            self.node(g, r.choice(["BitwiseXor", "BitwiseAnd", "BitwiseOr"]), [self.pick(g, "U"), self.pick(g, "U")], [u2])
+            g.add("U", u2)
+            self.node(g, "Cast", [u2], [o], to=TP.FLOAT)
+            g.add("F", o)
+        else:  # xor
+            b1 = self.namer.new()
+            self.node(g, "Less", [self.pick(g, "F"), self.pick(g, "F")], [b1])
+            g.add("B", b1)
+            self.node(g, "Xor", [b1, self.pick(g, "B")], [o])
+            g.add("B", o)
+
     def step(self, g: G, depth: int):
         r = self.rng
+        if r.random() < 0.2:
+            return self.typed_step(g)
         k = r.random()
         o = self.namer.new()
         if k < 0.22:
@@ -364,6 +448,12 @@ class ModelGen:
             n = self.namer.new()
             g.add("I", n)
             inputs.append(H.make_tensor_value_info(n, TP.INT64, []))
+        if r.random() < 0.5:
+            for _ in range(r.choice([1, 2])):
+                n = self.namer.new()
+                g.add("L", n)
+                g.add("LNZ", n)
+                inputs.append(H.make_tensor_value_info(n, TP.INT64, [3]))
         self.body(g, 0, r.randrange(1, self.size + 1))
         if self.refusal == "nostop":
             self.loop_stmt(g, 0, self.namer.new())
@@ -390,6 +480,7 @@ class ModelGen:
         else:
             self.flags.add("dead_code_kept")
         produced = [v for v in g.vals["F"] + g.vals["B"] if v not in [i.name for i in inputs]]
+        extra_typed = [v for v in g.vals["D"] + g.vals["L"] if v not in [i.name for i in inputs]]
         if not produced:
             o = self.namer.new()
             self.node(g, "Neg", [self.pick(g, "F")], [o])
@@ -399,6 +490,8 @@ class ModelGen:
         r.shuffle(produced)
         for v in produced[:nout]:
             outs.append(H.make_tensor_value_info(v, TP.FLOAT if v in g.vals["F"] else TP.BOOL, [3]))
+        for v in extra_typed[-2:]:
+            outs.append(H.make_tensor_value_info(v, TP.DOUBLE if v in g.vals["D"] else TP.INT64, [3]))
         self.apply_refusal(g)
         gname = r.choice(["g", "main_graph", "my.graph", "1st", "class", "torch-jit-export"]) if self.namer.scheme != "clean" else r.choice(["g", "main_graph"])
         graph = H.make_graph(g.nodes, gname, inputs, outs, initializer=g.inits)
@@ -465,6 +558,8 @@ def feeds_for(model: onnx.ModelProto, rng, k: int = 3):
         for i in model.graph.input:
             if i.type.tensor_type.elem_type == TP.FLOAT:
                 f[i.name] = np.array([rng.choice([-2.0, -1.0, 0.0, 0.5, 1.0, 2.0, 3.0]) for _ in range(3)], dtype=np.float32)
+            elif len(i.type.tensor_type.shape.dim) == 1:
+                f[i.name] = np.array([rng.choice([-7, -5, -3, -2, -1, 1, 2, 3, 5, 7]) for _ in range(3)], dtype=np.int64)
             else:
                 f[i.name] = np.array(rng.choice([0, 1, 2, 3]), dtype=np.int64)
         out.append(f)
